@@ -394,7 +394,8 @@ deriving DecidableEq, Repr
 
 /-- `get_explorerscript_constant_for(idx)` -/
 def dmodeConst (c : DMode) (idx : Int) : Str :=
-  if idx = 1 then c.open else if idx = 2 then c.request else if idx = 3 then c.openRequest else c.close
+  if idx = 0 then c.close else if idx = 1 then c.open else if idx = 2 then c.request else if idx = 3 then c.openRequest
+  else ESV.showInt idx      -- not one of the four modes: the number stands for itself (`str(idx)`)
 
 /-! ### guards: the values on which print-then-read is the identity (see ESV/Props/C04.lean) -/
 
